@@ -44,6 +44,8 @@ type Engine struct {
 	modulePath string
 	fileHashes map[string]string
 	guards    map[string]GuardDecl // "pkgpath.Struct.field" -> decl
+	tables    map[*ssa.Global]*tableFact
+	addrTaken map[*ssa.Function]bool
 }
 
 func (e *Engine) qual(p *types.Package) string { return p.Name() }
